@@ -839,7 +839,19 @@ func deep(r *report.R) {
 	// second family: every level has a parameter alternative whose pattern ends in its own literal,
 	// "/a"*k + "/:p" + "/a"*(D-k-2) + "/e<k>": the path "/a"*(D-1) + "/e<j>" follows the literal chain to
 	// the bottom and is matched only through the parameter at level j (also the shallowest one).
-	for D := 3; D <= maxD+2; D++ {
+	// (this family is cheap - D patterns, about D*D paths - so it goes far deeper than the first: a
+	// bounded backtracking stack, a byte-sized counter or a recursion limit shows only beyond its size)
+	depths := []int{}
+	for D := 3; D <= 40; D++ {
+		depths = append(depths, D)
+	}
+	if r.Thorough() {
+		for D := 41; D <= 70; D++ {
+			depths = append(depths, D)
+		}
+		depths = append(depths, 100, 129, 200, 257, 300)
+	}
+	for _, D := range depths {
 		var pats []string
 		for k := 0; k <= D-2; k++ {
 			pats = append(pats, strings.Repeat("/a", k)+fmt.Sprintf("/:t%dk%d", D, k)+strings.Repeat("/a", D-k-2)+fmt.Sprintf("/e%d", k))
@@ -850,6 +862,9 @@ func deep(r *report.R) {
 		}
 		var paths []string
 		for j := 0; j <= D-2; j++ {
+			if D > 70 && j != 0 && j != D/2 && j != D-2 && j != D-18 {
+				continue
+			}
 			paths = append(paths, strings.Repeat("/a", D-1)+fmt.Sprintf("/e%d", j))
 			for i := 0; i < D-1; i++ {
 				paths = append(paths, strings.Repeat("/a", i)+"/x"+strings.Repeat("/a", D-2-i)+fmt.Sprintf("/e%d", j))
@@ -881,4 +896,5 @@ func deep(r *report.R) {
 		}
 	}
 	r.Set("deep_chain_max_depth", maxD)
+	r.Set("deep_own_tail_family_max_depth", depths[len(depths)-1])
 }
